@@ -48,4 +48,14 @@ CHECKS = {
         'never increases; rays.i and SpotDiagram intensities equal the last record. Counter-example search.',
   note='Polarization off; edge rays within 1e-9 of an aperture rim not judged; k from my own table interpolation.',
   design='3/C16'),
+ 'C05': dict(
+  technique='Hypothesis-generated centred lenses x a geometric sequence of aperture/field scale factors; metamorphic '
+            'limit relation against the independent ABCD reference rays',
+  level='For every generated lens real-ray heights and slope tangents at every surface, divided by the scale factor, '
+        'are required to approach the ABCD marginal/chief ray with a defect bounded by 4 K eps^2 (K from the two largest '
+        'eps) down to eps = 1e-4. Counter-example search; a first-order disagreement of either tracer shows up as a '
+        'non-vanishing defect.',
+  note='Centred systems only (see DESIGN 3/C05); round-off floor stated in the evidence rule; near-parabolic conics '
+       'carry the weakened floor of known finding C05-parabola-cancellation.',
+  design='3/C05'),
 }
